@@ -252,13 +252,17 @@ func genNegative(t *rapid.T) Case {
 	return c
 }
 
+var subPositive, subNegative vf.Sub[Case]
+
+func FuzzParse(f *testing.F)         { vf.Fuzz(f, "C17", subPositive) }
+func FuzzParseNegative(f *testing.F) { vf.Fuzz(f, "C17", subNegative) }
+
 func init() {
-	vf.Register(
-		vf.Sub[Case]{Name: "positive", Quick: 20000, Thorough: 300000, Gen: genPositive, Check: check, Floor: 0.3,
-			Rule: "syntax trees (size <=25) over Go-identifier-shaped names, exactly-one groups {a, b} of 1..4 names, rendered with minimal or redundant parentheses at each node, right-nested operator chains (and, for the associative operators, unparenthesised left operands), ';' at top level and inside parentheses, optional trailing ';', random whitespace incl. tabs/newlines/CRLF between tokens; oracle = own evaluator of the tree under all assignments vs Formula.Eval of the parse result; non-trivial = two different binary operators adjacent without parentheses"},
-		vf.Sub[Case]{Name: "negative", Quick: 10000, Thorough: 150000, Gen: genNegative, Check: check, Floor: 0.5,
-			Rule: "token-level corruptions of a valid rendering: operand deleted, operator deleted or doubled, parenthesis deleted or added, token appended, empty text, {}, {a,}; corruptions that the harness's own recogniser of the documented grammar still accepts are discarded (counted as excluded); asserted: error != nil, formula == nil, no panic; non-trivial = the corrupted text is ill-formed"},
-	)
+	subPositive = vf.Sub[Case]{Name: "positive", Quick: 20000, Thorough: 300000, Gen: genPositive, Check: check, Floor: 0.3,
+			Rule: "syntax trees (size <=25) over Go-identifier-shaped names, exactly-one groups {a, b} of 1..4 names, rendered with minimal or redundant parentheses at each node, right-nested operator chains (and, for the associative operators, unparenthesised left operands), ';' at top level and inside parentheses, optional trailing ';', random whitespace incl. tabs/newlines/CRLF between tokens; oracle = own evaluator of the tree under all assignments vs Formula.Eval of the parse result; non-trivial = two different binary operators adjacent without parentheses"}
+	subNegative = vf.Sub[Case]{Name: "negative", Quick: 10000, Thorough: 150000, Gen: genNegative, Check: check, Floor: 0.5,
+			Rule: "token-level corruptions of a valid rendering: operand deleted, operator deleted or doubled, parenthesis deleted or added, token appended, empty text, {}, {a,}; corruptions that the harness's own recogniser of the documented grammar still accepts are discarded (counted as excluded); asserted: error != nil, formula == nil, no panic; non-trivial = the corrupted text is ill-formed"}
+	vf.Register(subPositive, subNegative)
 }
 
 func TestMain(m *testing.M)   { vf.Main(m, "C17") }
